@@ -64,6 +64,8 @@ type TierCfg struct {
 	ConcCap  int            `json:"conc_cap"`
 	BudgetS  int            `json:"budget_s"`
 	Second   []string       `json:"second_solvers"`
+	Solver   string         `json:"solver"`
+	SolverMs int            `json:"solver_ms"`
 }
 
 type ExtraFile struct {
